@@ -40,6 +40,9 @@ stream("C11", "All ranges x jobs 1..8 on streams of up to 12 blocks against the 
 stream("C08", "Fault at every call index of the sink and of the source (transient, permanent, Close), retries of Close, with the outcome rules of the property evaluated on the Go objects; bit stream fault programs and Writer sequences with an injected task failure compared with the extracted Coq models.", "exhaustive fault-point enumeration + extracted Coq OutBS/InBS/Writer models vs Go", "6/C08")
 stream("C17", "Random call programs on Writer and Reader checked against the lifecycle rules, and against the extracted Coq Writer/Reader state machines result by result.", "random API call programs vs extracted Coq state machines", "6/C17")
 
+stream("C12", "Round trip with a sentinel word after the block for all nine entropy codecs over adversarial lengths and histograms (bit-exact consumption measured with the bit counters).", "differential round trip + consumption counters", "6/C12")
+stream("C13", "Forward/Inverse of each transform with canary-guarded buffers of exactly the advertised / decompressor sizes, decline-leaves-input-intact, data type hints.", "differential round trip with canaries", "6/C13")
+
 NOT_YET = {}
 def main():
     props = [json.loads(l)["id"] for l in open(os.path.join(ROOT, "properties.jsonl"))]
